@@ -24,7 +24,7 @@ ASSUMPTIONS = [
     "physical 'waiting' vs 'delayed' is only distinguished for due times more than 10 ms ahead (early delivery is C05's)",
     "no time-to-live on messages here (expiry is C12's)",
 ]
-REQUIRED = ["ops", "snapshots_compared", "consume_returns", "cancel_points", "drain_audits"]
+REQUIRED = ["ops", "snapshots_compared", "consume_returns", "cancel_points", "drain_audits", "jumps_to_exact_due_time"]
 SHARD_TIMEOUT = {"quick": 900, "thorough": 3600}
 CASE_TIMEOUT = 120
 
@@ -228,6 +228,9 @@ async def run_history(loop, case, out, stats, trace):
             started = [c for c in consumers if c["started"]]
             held = [m for m in model.values() if m.place == "held"]
             choices = ["enqueue"] * 4 + ["jump"]
+            future_due = [m for m in model.values() if m.place == "queued" and m.due is not None and m.due > now() + timedelta(seconds=0.05) and m.due < now() + timedelta(days=2)]
+            if future_due:
+                choices += ["jump_due"]
             if len(started) < (1 if single_consumer_mode else 3):
                 choices += ["start"] * 2
             if started:
@@ -256,6 +259,25 @@ async def run_history(loop, case, out, stats, trace):
                 loop.jump(dt)
                 trace.append(("jump", dt))
                 await asyncio.sleep(0.002)
+            elif op == "jump_due":
+                # put the clock EXACTLY on a message's due time (boundary of every "is it due yet" comparison)
+                m = rnd.choice(future_due)
+                await rig.quiesce_wire()
+                loop.jump_to((m.due - datetime(2040, 1, 1)).total_seconds())
+                trace.append(("jump_due", m.id, str(m.due)))
+                stats["jumps_to_exact_due_time"] += 1
+                for c in [c for c in consumers if c["started"] and c["queue"] == m.queue and c["cat"] == "NORMAL"][:1]:
+                    try:
+                        key, payload, params = await asyncio.wait_for(c["obj"].consume(), 2.5)
+                    except asyncio.TimeoutError:
+                        continue
+                    stats["consume_returns"] += 1
+                    trace.append(("consume", c["obj"]._rv_label, key.id_))
+                    mm = model.get(key.id_)
+                    if mm is None or mm.place != "queued" or (mm.due is not None and mm.due > now() + timedelta(seconds=1)):
+                        out.append(V("wrong_place", kind, "consume/NORMAL", f"after a jump to the due time of {m.id}: received {key.id_} which the model has as {None if mm is None else (mm.place, str(mm.due))}"))
+                    else:
+                        mm.place, mm.holder, mm.taken_from, mm.key = "held", c, "NORMAL", key
             elif op == "start":
                 conn = rnd.choice(conns)
                 cat = rnd.choice(["NORMAL", "NORMAL", "NORMAL", "DELAYED", "DEAD"])
